@@ -207,6 +207,20 @@ func glueable(a, b stok) bool {
 	case wordish(a) && simpleP(b):
 		return true
 	}
+	// symbolic operators cannot merge with names, numbers, quotes or brackets ("a+b", "not-z", "and+a", "x~'s'");
+	// two symbolic operators are never glued (they might form another operator)
+	symOp := func(t stok) bool { return t.kind == kOp && strings.Contains("+-*/%~<>==!=<=>=**//", t.text) }
+	closeB := func(t stok) bool { return t.kind == kPunct && (t.text == ")" || t.text == "]") }
+	openB := func(t stok) bool { return t.kind == kPunct && (t.text == "(" || t.text == "[") }
+	if a.kind == kWord && a.text == "b" && b.text == "-" {
+		return false // would start "b-and" / "b-or" / "b-xor"
+	}
+	if (wordish(a) || closeB(a)) && symOp(b) {
+		return true
+	}
+	if symOp(a) && (wordish(b) || openB(b)) {
+		return true
+	}
 	return false
 }
 
